@@ -60,6 +60,7 @@ type MapV struct {
 	KT, VT  types.Type
 	seq     int
 	ID      int
+	Glob    string // set when the map was loaded from package-level state
 }
 
 type Iface struct {
